@@ -8,6 +8,7 @@ CONSTANTS
  BrkThr = 3
  BrkSleep = 5
  ModelTaskBound = 3
+ MaxRuns = 2
 CONSTRAINT Mark
 POSTCONDITION Report
 CHECK_DEADLOCK FALSE
